@@ -725,7 +725,9 @@ type mapWrite struct {
 
 // ---- loops' call effects
 
-func (fx *FnExec) callFamilies(fr *frame, cc *ssa.CallCommon, out map[string]bool) {
+// callEffects summarises what a call inside a loop may change.
+func (fx *FnExec) callEffects(fr *frame, cc *ssa.CallCommon, li *loopInfo, addrEffect func(ssa.Value)) {
+	out := li.modFam
 	if b, ok := cc.Value.(*ssa.Builtin); ok {
 		switch b.Name() {
 		case "copy", "append":
@@ -742,31 +744,50 @@ func (fx *FnExec) callFamilies(fr *frame, cc *ssa.CallCommon, out map[string]boo
 		}
 		return
 	}
+	var fc *FuncContract
+	var callee *ssa.Function
 	if cc.IsInvoke() {
-		key := ifaceMethodKey(cc.Value.Type(), cc.Method.Name())
-		if fc := fx.eng.db.Funcs[key]; fc != nil && fc.Pure {
+		fc = fx.eng.db.Funcs[ifaceMethodKey(cc.Value.Type(), cc.Method.Name())]
+	} else {
+		callee = cc.StaticCallee()
+		if callee == nil {
+			out["*"] = true
 			return
 		}
-		out["*"] = true
+		switch pkgPathOf(callee) {
+		case "github.com/sirupsen/logrus", "log":
+			return
+		}
+		if callee.Name() == "ssa:wrapnilchk" {
+			return
+		}
+		fc = fx.eng.db.Funcs[funcKey(callee)]
+	}
+	if fc != nil && fc.Pure {
 		return
 	}
-	callee := cc.StaticCallee()
-	if callee == nil {
-		out["*"] = true
+	if fc != nil && !fc.Inline && !fc.ModAll && len(fc.Modifies) > 0 && (len(fc.Logical) == 0 || fc.Assumed) {
+		// map contract names to argument values
+		argOf := map[string]ssa.Value{}
+		args := cc.Args
+		if cc.IsInvoke() {
+			argOf[fc.Recv] = cc.Value
+		} else if callee != nil && callee.Signature.Recv() != nil && len(args) > 0 {
+			argOf[fc.Recv] = args[0]
+			args = args[1:]
+		}
+		for i, n := range fc.Params {
+			if i < len(args) {
+				argOf[n] = args[i]
+			}
+		}
+		for _, m := range fc.Modifies {
+			fx.modifiesEffect(m.Expr, argOf, li, addrEffect)
+		}
 		return
 	}
-	switch pkgPathOf(callee) {
-	case "github.com/sirupsen/logrus", "log":
-		return
-	}
-	if callee.Name() == "ssa:wrapnilchk" {
-		return
-	}
-	if fc := fx.eng.db.Funcs[funcKey(callee)]; fc != nil && fc.Pure {
-		return
-	}
-	if fx.eng.autoInline(callee) || (fx.eng.db.Funcs[funcKey(callee)] != nil && fx.eng.db.Funcs[funcKey(callee)].Inline) {
-		// effects of the inlined body
+	if callee != nil && (fx.eng.autoInline(callee) || (fc != nil && fc.Inline)) {
+		// effects of the inlined body (conservative: by family)
 		for _, b := range callee.Blocks {
 			for _, ins := range b.Instrs {
 				switch x := ins.(type) {
@@ -774,13 +795,16 @@ func (fx *FnExec) callFamilies(fr *frame, cc *ssa.CallCommon, out map[string]boo
 					if a, ok := x.Addr.(*ssa.Alloc); ok && fx.isLocalCell(a) {
 						continue
 					}
+					if root := rootAlloc(x.Addr); root != nil && !allocEscapes(root) {
+						continue
+					}
 					fx.storeFamilies(x.Addr, out)
 				case *ssa.Alloc:
-					if !fx.isLocalCell(x) {
+					if !fx.isLocalCell(x) && allocEscapes(x) {
 						fx.typeFamilies(x.Type().(*types.Pointer).Elem(), out)
 					}
 				case *ssa.Call:
-					fx.callFamilies(fr, x.Common(), out)
+					fx.callEffects(fr, x.Common(), li, func(v ssa.Value) { fx.storeFamilies(v, out) })
 				case *ssa.MapUpdate:
 					out["map"] = true
 				}
@@ -790,3 +814,84 @@ func (fx *FnExec) callFamilies(fr *frame, cc *ssa.CallCommon, out map[string]boo
 	}
 	out["*"] = true
 }
+
+// modifiesEffect maps one modifies target of a callee contract to the loop summary.
+func (fx *FnExec) modifiesEffect(x *CExpr, argOf map[string]ssa.Value, li *loopInfo, addrEffect func(ssa.Value)) {
+	out := li.modFam
+	base := x
+	for base.Op == "paren" {
+		base = base.Args[0]
+	}
+	switch base.Op {
+	case "ident":
+		if _, ok := fx.eng.ghostTypes[base.Name]; ok {
+			li.modGhost[base.Name] = true
+			return
+		}
+		if v, ok := argOf[base.Name]; ok {
+			// pointer or slice argument modified as a whole
+			switch u := v.Type().Underlying().(type) {
+			case *types.Pointer:
+				if root := rootAlloc(v); root != nil && !fx.isLocalCell(root) && !li.body[root.Block()] {
+					li.modObj[root] = true
+					return
+				}
+				if isObjT(u.Elem()) {
+					fx.typeFamilies(u.Elem(), out)
+				} else {
+					out["B|"+typeKey(u.Elem())+"|"] = true
+				}
+				return
+			case *types.Slice:
+				if isObjT(u.Elem()) {
+					fx.typeFamilies(u.Elem(), out)
+				} else {
+					out["M|"+typeKey(u.Elem())+"|"] = true
+				}
+				return
+			}
+		}
+	case "un":
+		if base.Name == "*" {
+			fx.modifiesEffect(base.Args[0], argOf, li, addrEffect)
+			return
+		}
+	case "slice", "index":
+		fx.modifiesEffect(base.Args[0], argOf, li, addrEffect)
+		return
+	case "field":
+		if strings.HasPrefix(base.Name, "$") {
+			return // ghost fields live outside the program heap
+		}
+		if base.Name == "*" {
+			fx.modifiesEffect(base.Args[0], argOf, li, addrEffect)
+			return
+		}
+		if b0 := base.Args[0]; b0.Op == "ident" {
+			if v, ok := argOf[b0.Name]; ok {
+				if p, ok := v.Type().Underlying().(*types.Pointer); ok {
+					if st, ok := under(p.Elem()).(*types.Struct); ok {
+						for i := 0; i < st.NumFields(); i++ {
+							if st.Field(i).Name() == base.Name {
+								if root := rootAlloc(v); root != nil && !fx.isLocalCell(root) && !li.body[root.Block()] {
+									li.modObj[root] = true
+									return
+								}
+								ft := st.Field(i).Type()
+								if isObjT(ft) {
+									fx.typeFamilies(ft, out)
+								} else {
+									out["F|"+typeKey(p.Elem())+"|"+base.Name+"|"] = true
+									// a slice-typed field modified means its header; contents need s[..]
+								}
+								return
+							}
+						}
+					}
+				}
+			}
+		}
+	}
+	out["*"] = true
+}
+
